@@ -214,3 +214,45 @@ def multiset_diff(expected, got):
     missing = list((e - g).elements())
     surplus = list((g - e).elements())
     return missing, surplus
+
+
+def legacy_arity(h, n, coroutine, method=False):
+    """Wrap a generated (*args) handler into one that accepts exactly n
+    positional arguments (the legacy one-argument disconnect handlers the
+    servers and clients still support through a TypeError fallback).  The
+    arity error is raised by the call itself, before the handler body, as
+    for any def with fixed parameters."""
+    import asyncio as _asyncio
+    if method:
+        if coroutine:
+            async def m(self_, *args):
+                if len(args) != n:
+                    raise TypeError('takes %d positional arguments' % n)
+                return await h(self_, *args)
+        else:
+            def m(self_, *args):
+                if len(args) != n:
+                    raise TypeError('takes %d positional arguments' % n)
+                return h(self_, *args)
+        return m
+    if coroutine:
+        async def f(*args):
+            if len(args) != n:
+                raise TypeError('takes %d positional arguments' % n)
+            return await h(*args)
+    else:
+        def f(*args):
+            if len(args) != n:
+                raise TypeError('takes %d positional arguments' % n)
+            return h(*args)
+    return f
+
+
+def legacy_namespace(nsobj, event, n, coroutine):
+    """Give on_<event> of a generated class-based namespace a fixed arity."""
+    cls = type(nsobj)
+    name = 'on_' + event
+    if name in cls.__dict__:
+        setattr(cls, name, legacy_arity(cls.__dict__[name], n, coroutine,
+                                        method=True))
+    return nsobj
